@@ -30,6 +30,22 @@ def run(tier, seed):
         dict(cfg="A", depth=10 if th else 8, maxtime=4, alpha=["cerok", "stop", "stopf"], faults=True, maxconn=1,
              invs=["NoOutputLost", "TablesConsistent"], sim=300 if th else 60, sim_depth=24, sim_alpha=["cerok", "dpa", "dwr", "stop", "stopf"], sim_maxconn=2, sim_maxtime=14)],
         seed, monitors=())
+    # ---- liveness: MC_Node!LiveSpec - after stop() every weakly fair interleaving of thread steps (time passes only when no
+    #      thread can run), with connections lost and DPAs arriving at any point, leads to stop() returning (StopReturns), and it
+    #      returns with the I/O thread ended and every connection socket closed (ClosedWhenStopped).  No depth bound.
+    from .c09_plan import two_ready_prefix
+    one = [{"a": "connect"}, {"a": "feed", "c": 1, "ms": [cer]}]
+    live_states = 0
+    for cfgname, pre, mt in (("A", one, 14), ("HOLD2", two_ready_prefix(), 14), ("T1", one, 16)) + ((("TS2", two_ready_prefix(), 18),) if th else ()):
+        r = nc.live_run("c18_live_" + cfgname, cfgname, mt, ["dpa"], True, 2, pre, timeout=1200)
+        if r["violated"] or not r["complete"]:
+            raise nc.tlc.TlcError("MC_Node!LiveSpec (%s): %s" % (cfgname, r["violated"] or "not exhausted within its time limit"))
+        live_states += r["distinct"]
+    g = nc.live_run("c18_live_guard", "A", 3, ["dpa"], True, 2, one, timeout=600)     # too little time for the wait loop: must violate
+    if "StopReturns" not in g["violated"]:
+        raise nc.tlc.TlcError("vacuity guard failed: LiveSpec with MaxTime 3 does not violate StopReturns (%r)" % (g["violated"],))
+    ck.cov["liveness_states"] = live_states
+    ck.cov["liveness_property"] = "StopReturns (<> stop done) under WF of the step relation, ClosedWhenStopped; guard (MaxTime 3) violates"
     total = 0
     for name, P, quick_runs, thorough_runs in SCENARIOS:
         bound = P + 1 if tier == "thorough" else P
